@@ -167,7 +167,7 @@ Lemma alternates_ext_caveats :
 Proof. vm_compute. split; reflexivity. Qed.
 
 (* Restore as it stands (restart counter 0): the first renegotiation of a restored session gets no
-   retransmission; with the counter initialised (fixes/C05_restore_restart_counter.patch) it gets
+   retransmission (before fe05ccf); with the counter initialised (HEAD) it gets
    Max-Configure *)
 Lemma restore_budget_refuted :
   let f := step default_cfg Repaired (restore false default_cfg init) RCRp in
@@ -182,7 +182,7 @@ Lemma restore_budget_nonvac :
   count_acts is_retrans (trace default_cfg Repaired f [ETimeout]) = 1%nat.
 Proof. vm_compute. repeat split; reflexivity. Qed.
 
-(* the timer callback of today's code run late in Opened eats one retransmission of the next
+(* the timer callback before bbcb995, run late in Opened, eats one retransmission of the next
    negotiation; as an event of the model (a timer expiry needs a pending timer) it does nothing *)
 Lemma late_fire_refuted :
   let f := run default_cfg Repaired init [EOpen; EUp; RCRp; RCA1] in
